@@ -352,6 +352,17 @@ def runProgram (bounded useVM : Bool) (items : List Item) (input : Bytes) : Bool
   let (err, _, w) := runBlocks ends w
   (err, w)
 
+/-- several END blocks one after the other: each gets a Nop when it compiles to nothing; the codes are concatenated -/
+def compileEnds (t : Tables) : Nat → List String → Option (List Int)
+  | 0, _ => none
+  | _, [] => some []
+  | n+1, toks =>
+    match pList 10000 toks with
+    | some (s, rest) =>
+      let c := encode t (cStmt 0 0 s)
+      (compileEnds t n rest).map fun more => (if c.isEmpty then [opNum t.opcodes "Nop"] else c) ++ more
+    | none => none
+
 def showRun (r : Bool × CW) : String :=
   if r.1 then "error" else s!"ok:{toHex r.2.out}:{r.2.exit}"
 
@@ -367,6 +378,10 @@ def handle (args : List String) : String :=
         match pList 10000 term with
         | some (s, []) => "ok " ++ showInts (encode t (cStmt 0 0 s))
         | _ => "unsupported"
+      else if kind = "E" then
+        match compileEnds t 1000 term with
+        | some c => "ok " ++ showInts c
+        | none => "unsupported"
       else if kind = "a" then
         -- a pattern-action body: `Compile` adds a Nop when the statements compile to no instruction (`/a/ { { } }`)
         match pList 10000 term with
